@@ -72,6 +72,8 @@ func argCounts(a world.Arity) []int {
 		return []int{4}
 	case world.ArInf:
 		return []int{1, 2, 3, 5}
+	case world.ArMin3:
+		return []int{3, 4, 6}
 	}
 	return nil
 }
@@ -97,7 +99,7 @@ type c02req struct {
 // reply shape chosen per request.
 func c02Batch(name string, nodes []world.NodeSpec, password string, big bool) *world.Scenario {
 	sp := world.SpecTable[name]
-	sc := &world.Scenario{Nodes: nodes, Bound: 0, Password: password, Family: "commands", Horizon: 1 << 20}
+	sc := &world.Scenario{Nodes: nodes, Bound: 0, Password: password, Family: "commands", Horizon: 1 << 20, InputEnum: true}
 	var reqs []c02req
 	cs := world.ClientSpec{}
 	i := 0
@@ -434,7 +436,7 @@ func c04Handshake(w *world.World) []world.Violation {
 
 func c04AllSlots(lay string, cmd string, tagged bool, disable bool) *world.Scenario {
 	initSlotKeys()
-	sc := &world.Scenario{Nodes: layout(lay), Bound: 0, Family: "all-slots", Horizon: 1 << 22, DisableSlave: disable}
+	sc := &world.Scenario{Nodes: layout(lay), Bound: 0, Family: "all-slots", Horizon: 1 << 22, DisableSlave: disable, InputEnum: true}
 	cs := world.ClientSpec{}
 	for s := 0; s < 16384; s++ {
 		k := slotKeys[s]
@@ -510,7 +512,7 @@ func c04Command(name string, nrep int, disable bool, slot int, password string) 
 }
 
 func c04HandshakeCuts(mask int, password string, replica bool) *world.Scenario {
-	sc := &world.Scenario{Nodes: replicaTopo(1), Bound: 0, Family: "handshake", Horizon: 400, Password: password}
+	sc := &world.Scenario{Nodes: replicaTopo(1), Bound: 0, Family: "handshake", Horizon: 400, Password: password, InputEnum: true}
 	if !replica {
 		sc.DisableSlave = true
 	}
